@@ -391,7 +391,9 @@ def jobs(tier):
                        assumptions=['I_layout (what update() installs, not under contract): each virtual argument\'s v-table pointer plus its slot lies inside the '
                                     'dispatch data; the first slot holds the address of a row, later slots hold group indexes; the selected cell lies inside the data',
                                     'dispatch data <= 128 words (object-size bound; the walk itself is loop-free); group index x stride treated as an arbitrary binary function'],
-                       extracted=[inst.done[k][0] for k in inst.order][:6], props=props, timeout=300))
+                       extracted=[inst.done[k][0] for k in inst.order][:6], props=props, timeout=300,
+                       replay=(lambda job, res, ob, s=s: R.run_generated_program('dispatch_%s' % s, R.shape_dispatch_program(s), {'shape': s}))
+                       if not f['static'] and not f['indirect'] else None))
     return out
 
 
